@@ -67,7 +67,10 @@ Section Run.
   Definition maybe_restore (rall : bool) (rs : list N) (d : drv) : res St :=
     if rall || memN (d_calls d) rs then m_restore (d_s d) else Val (d_s d).
 
-  Fixpoint go (fuel : nat) (caps : list N) (rall : bool) (rs : list N)
+  (* percall = false: one output buffer is kept (offset carried over) until it is reported full,
+     as catbrotli does;  percall = true: every call gets a fresh buffer of the next size, so
+     any amount of free space (including none) can be offered at any call *)
+  Fixpoint go (fuel : nat) (caps : list N) (percall : bool) (rall : bool) (rs : list N)
               (tasks : list task) (in_off : N) (d : drv) : run_result :=
     match fuel with
     | O => stop d Looped
@@ -77,7 +80,7 @@ Section Run.
       | TFile :: rest =>
         match m_file (d_s d) with
         | Panic => stop d Panicked
-        | Val s' => go f caps rall rs rest 0
+        | Val s' => go f caps percall rall rs rest 0
                        (mkD s' (d_buf d) (d_off d) (d_capidx d) (d_emitted d) (d_calls d) (d_trace d))
         end
       | TChunk c :: rest =>
@@ -93,8 +96,8 @@ Section Run.
             let d' := mkD (o_s r) (o_out r) (o_off r) (d_capidx d) (d_emitted d) (d_calls d + 1)
                           (mkCR 0 (Some (o_rc r)) (lenN c) in_off (o_in r) (lenN (d_buf d)) (d_off d) (o_off r) (o_out r) (m_show (o_s r)) :: d_trace d) in
             match o_rc r with
-            | NeedsMoreInput => go f caps rall rs rest 0 d'
-            | NeedsMoreOutput => go f caps rall rs tasks (o_in r) (drain caps d')
+            | NeedsMoreInput => go f caps percall rall rs rest 0 (if percall then drain caps d' else d')
+            | NeedsMoreOutput => go f caps percall rall rs tasks (o_in r) (drain caps d')
             | rc => stop d' (Done rc)
             end
           end
@@ -112,7 +115,7 @@ Section Run.
             let d' := mkD (o_s r) (o_out r) (o_off r) (d_capidx d) (d_emitted d) (d_calls d + 1)
                           (mkCR 1 (Some (o_rc r)) 0 0 0 (lenN (d_buf d)) (d_off d) (o_off r) (o_out r) (m_show (o_s r)) :: d_trace d) in
             match o_rc r with
-            | NeedsMoreOutput => go f caps rall rs tasks 0 (drain caps d')
+            | NeedsMoreOutput => go f caps percall rall rs tasks 0 (drain caps d')
             | rc => stop d' (Done rc)
             end
           end
@@ -120,8 +123,8 @@ Section Run.
       end
     end.
 
-  Definition run_from (fuel : nat) (caps : list N) (rall : bool) (rs : list N) (tasks : list task) (s0 : St) : run_result :=
-    go fuel caps rall rs tasks 0 (mkD s0 (fresh_buf (nth_cap caps 0)) 0 0 [] 0 []).
+  Definition run_from (fuel : nat) (caps : list N) (percall : bool) (rall : bool) (rs : list N) (tasks : list task) (s0 : St) : run_result :=
+    go fuel caps percall rall rs tasks 0 (mkD s0 (fresh_buf (nth_cap caps 0)) 0 0 [] 0 []).
 End Run.
 
 (* ------------------------------------------------------------------ the two machines *)
